@@ -90,6 +90,94 @@ fn run_behaviour(ctx: &Ctx) -> i32 {
     crate::props::behave::run(ctx, &behaviour())
 }
 
+/// Values of dynamically sized types. The shared observers enumerate values by value, which a `Dst<[u8]>` cannot be: this lane
+/// renders structs with an unsized tail (`[u8]`, or `dyn Key` when the tail is not compared natively), boxes values of
+/// different tail lengths (so that `size_of_val` differs between them) and compares all pairs with the field-wise oracle.
+fn dst_lane(ctx: &Ctx, rep: &mut crate::check::Report, so: &std::path::Path) {
+    use crate::check::{self, Failure, RVerdict};
+    use crate::engine::Unit;
+    let n = ctx.scale(60, 400);
+    let mut units: Vec<Unit> = Vec::new();
+    let mut defs: Vec<String> = Vec::new();
+    let mut dnas: Vec<Vec<u16>> = Vec::new();
+    for dna in check::draw_values(ctx.seed, 0xC02D, n, 24) {
+        let mut d = Dna::new(&dna);
+        let named = d.chance(60);
+        let two_headers = d.chance(50);
+        let h1_ignored = two_headers && d.chance(40);
+        let tail_mode = d.pick(3); // 0 own ==, 1 ignored, 2 custom method
+        let dyn_tail = tail_mode != 0 && d.chance(40);
+        let with_eq = tail_mode == 0 && d.chance(50);
+        let written_under = if with_eq && d.chance(40) { "Eq" } else { "PartialEq" };
+        let tail_attr = match (tail_mode, d.pick(3)) {
+            (0, _) => String::new(),
+            (1, 0) => format!("#[educe({written_under}(ignore))] "),
+            (1, 1) => format!("#[educe({written_under} = false)] "),
+            (1, _) => format!("#[educe({written_under}(ignore = true))] "),
+            (_, 0) => format!("#[educe({written_under}(method = m_eq_le))] "),
+            (_, 1) => format!("#[educe({written_under}(method(m_eq_le)))] "),
+            (_, _) => format!("#[educe({written_under}(method = \"m_eq_le\"))] "),
+        };
+        let h1_attr = if h1_ignored { "#[educe(PartialEq(ignore))] " } else { "" };
+        let traits = if with_eq { "PartialEq, Eq" } else { "PartialEq" };
+        let (open, close, f0, f1, ft) = if named { ("{", "}", "h0: ", "h1: ", "tail: ") } else { ("(", ");", "", "", "") };
+        let mut def = format!("#[derive(Educe)]\n#[educe({traits})]\npub struct Dst<Zt: ?Sized + Key> {open}\n    {f0}u32,\n");
+        if two_headers {
+            def.push_str(&format!("    {h1_attr}{f1}u8,\n"));
+        }
+        def.push_str(&format!("    {tail_attr}{ft}Zt,\n{close}\n"));
+        let target = if dyn_tail { "dyn Key" } else { "[u8]" };
+        // (header, second header, tail): tails of 1, 3 and 6 bytes give padded sizes 8, 8 and 12 behind a u32 header
+        let rows: [(u32, u8, &str); 8] = [(1, 1, "[1u8, 2, 3]"), (1, 1, "[1u8, 2, 3, 4, 5, 6]"), (1, 2, "[1u8, 2, 3]"), (2, 1, "[1u8, 2, 3]"), (1, 1, "[9u8]"), (1, 1, "[1u8, 2, 4]"), (1, 2, "[7u8, 7, 7, 7, 7, 7, 7]"), (1, 1, "[0u8; 0]")];
+        let mk = |h0: u32, h1: u8, t: &str| -> String {
+            let t = if dyn_tail { format!("Wrap({}.key())", t) } else { t.to_string() };
+            match (named, two_headers) {
+                (true, true) => format!("Dst {{ h0: {h0}, h1: {h1}, tail: {t} }}"),
+                (true, false) => format!("Dst {{ h0: {h0}, tail: {t} }}"),
+                (false, true) => format!("Dst({h0}, {h1}, {t})"),
+                (false, false) => format!("Dst({h0}, {t})"),
+            }
+        };
+        let mut o = String::new();
+        o.push_str(&format!("pub fn run(o: &mut Out) {{\n    let xs: ::std::vec::Vec<(u32, u8, i64, ::std::boxed::Box<Dst<{target}>>)> = vec![\n"));
+        for (h0, h1, t) in rows.iter() {
+            o.push_str(&format!("        ({h0}, {h1}, Key::key(&{t}), ::std::boxed::Box::new({})),\n", mk(*h0, *h1, t)));
+        }
+        o.push_str("    ];\n    let mut sizes = ::std::collections::BTreeSet::new();\n");
+        o.push_str("    for (i, a) in xs.iter().enumerate() {\n        sizes.insert(::core::mem::size_of_val(&*a.3));\n        for (j, b) in xs.iter().enumerate() {\n");
+        let headers = if two_headers && !h1_ignored { "a.0 == b.0 && a.1 == b.1" } else { "a.0 == b.0" };
+        let tail = match tail_mode {
+            0 => "a.2 == b.2",
+            1 => "true",
+            _ => "a.2 <= b.2",
+        };
+        o.push_str(&format!("            let exp = {headers} && {tail};\n            let got = *a.3 == *b.3;\n"));
+        o.push_str("            o.check(got == exp, || format!(\"dynamically sized values {i} == {j}: educe says {got}, field-wise equality says {exp}\"));\n");
+        o.push_str("            o.check((*a.3 != *b.3) == !exp, || format!(\"dynamically sized values {i} != {j} is not the negation of ==\"));\n");
+        o.push_str("            o.tally(\"dst_pairs\", 1);\n        }\n    }\n");
+        if !dyn_tail {
+            o.push_str("    o.check(sizes.len() >= 2, || \"HARNESS: the values all have one size\".to_string());\n");
+        }
+        o.push_str("}\n");
+        // (the tail key of a slice is injective enough for these rows: all eight keys are distinct)
+        let body = format!("{}{}\npub mod obs {{\n#![allow(warnings)]\nuse super::*;\n{}}}\npub fn run(o: &mut Out) {{ obs::run(o) }}\n", crate::props::common::std_header(), def, o);
+        units.push(Unit { body, has_run: true });
+        defs.push(def);
+        dnas.push(dna);
+    }
+    let (outs, _) = check::eval_units("C02-dst", &units, so, 20, true);
+    for (k, o) in outs.iter().enumerate() {
+        rep.evaluations += 1;
+        rep.class("dynamically_sized_values");
+        rep.count("runtime_checks", o.checks);
+        rep.nontrivial.insert(fnv64(&defs[k]));
+        if let RVerdict::Fail(m) = check::judge_default(o, true) {
+            rep.violations.push(Failure { msg: format!("[dynamically sized values] {m}"), dna: dnas[k].clone(), variant: "dst".into(), source: defs[k].clone(), unit_body: Some(units[k].body.clone()) });
+        }
+    }
+    check::clean_work("C02-dst");
+}
+
 pub fn behaviour() -> Behaviour {
     Behaviour {
         prop: "C02",
@@ -97,15 +185,16 @@ pub fn behaviour() -> Behaviour {
                values per variant: a base value, every single-field variation, all-different values; every ordered pair is compared with a rendered \
                oracle (same variant and every non-ignored field equal under its method, left operand first, or its own ==); != must be the negation; \
                reflexivity/symmetry/transitivity over all triples when no asymmetric method and no NaN is compared; non-trivial = a variant with \
-               at least 2 fields and both outcomes observed; distinct by definition hash",
+               at least 2 fields and both outcomes observed; distinct by definition hash; plus a lane over dynamically sized values (structs with a `[u8]` / `dyn Key` tail compared natively, ignored or by a method; boxed values of different tail lengths, all pairs)",
         salt: 0xC02,
         cfg,
         adjust: no_adjust,
         render,
-        quick: 4000,
+        quick: 7000,
         thorough: 20000,
         batch: 25,
         assumptions: &["custom methods m_eq_le (asymmetric) and m_eq_mod make argument order and method identity observable"],
         miri_units: 0,
+        extra: Some(dst_lane),
     }
 }
